@@ -67,10 +67,11 @@ class Stack(Sequence[T]):
         self.items.clear()
 
         if self.lengths:
-            item_count, _ = self.lengths[-1]
-            # Mark all items as popped for the latest snapshot
+            item_count, remained_count = self.lengths[-1]
+            # Mark all items as popped for the latest snapshot. Items above the
+            # snapshot's low-water mark were pushed after it and are not part of it.
             self.lengths[-1] = (item_count, 0)
-            self.popped.extend(reversed(removed))
+            self.popped.extend(reversed(removed[:remained_count]))
         else:
             # No snapshots to restore from; reset everything
             self.popped.clear()
